@@ -20,7 +20,7 @@ import time
 
 from vlib import c06util as U
 from vlib.common import (BACKENDS, BUILD, REPO, MachineryError, Reporter, _repo_tag, build_tool, cargo_env, default_configs,
-                         pmap, read_tree, run_tool, sh, sha, workdir)
+                         pmap, read_tree, run_tool, sh, workdir)
 
 PROP = "C06"
 CHUNK = 400           # bridge modules per diplomat-tool input file
